@@ -36,4 +36,5 @@ func RUnlocked(l *sync.RWMutex) bool
 func DeepEqual(a, b any) bool
 func Observe(label string, v uint64)
 func AllMapOrders(on bool)
+func AllSchedules(on bool)
 func Symbolic() bool
